@@ -206,7 +206,7 @@ class Taint:
             if isinstance(owner, ast.If) and neg and isinstance(t, ast.Name) and len(owner.body) == 1 \
                     and isinstance(owner.body[0], ast.Return):
                 sn = self.R.self_name(fn)
-                ok = src(owner.body[0].value) == sn and not owner.orelse
+                ok = src(owner.body[0].value) == sn
             self.sinks.append((fn, owner, 'truth test `%s`' % src(test), ok,
                                "documented `not lam` -> record only" if ok else ''))
 
